@@ -26,7 +26,10 @@ def sentences_pool(rnd):
         out.append(" ".join(ws).capitalize() + rnd.choice(".?!") + rnd.choice(["", "", "", "'", '"', ")", "\u201d", "\u2019"]))
     # fixed shapes: sentences that end in a short word, start with a number, a bracket, a quote or a lower-case word
     out += ["It all ended in late May.", "2023 was so much better than that.", "We really have to go.", "3 of them stayed behind again today.",
-            "(Really so, they said it twice.)", "\"Quoted start\" goes on for a while here.", "iPhones are sold there as well, they say."]
+            "(Really so, they said it twice.)", "\"Quoted start\" goes on for a while here.", "iPhones are sold there as well, they say.",
+            # a short sentence that is only long through an inline tag / code span / link
+            # (constructs without inner blanks: the oracle counts whitespace-separated words)
+            "This works {%badge-new-thing%} now.", "See `the_configuration_value` there.", "Read [guide](http://x.y/the/longer/guide) first."]
     return out
 
 
